@@ -50,7 +50,7 @@ TScenario ==
 
 Silent ==
   /\ \/ Build \/ Finish
-     \/ \E t \in AllT : GroupStart(t) \/ BatchNext(t) \/ ZipStep(t) \/ GroupDone(t)
+     \/ \E t \in AllT : GroupStart(t) \/ BatchNext(t) \/ BatchKeyFail(t) \/ ZipStep(t) \/ GroupDone(t)
      \/ \E i \in Idx : EntityFail(i)
   /\ UNCHANGED <<l, terr, trec>>
 
